@@ -102,8 +102,11 @@ def teamEligB (e : Env) (t : Nat) : Bool :=
 /-- decidable form of `EligU` (hypotheses of `C08.eligU_of_single`) -/
 def eligUB (e : Env) (t : Nat) : Bool :=
   let d := e.taskD t
-  eligB e t && !d.startProvided && (resLimitIds e (d.alloc.headD 0)).isEmpty && (taskLimitIds e t).isEmpty &&
-    (e.resD (d.alloc.headD 0)).leaf
+  eligB e t && !d.startProvided && (e.resD (d.alloc.headD 0)).leaf
+
+/-- decidable form of `Exhausted` -/
+def exhaustedB (e : Env) (σ : St) (t r : Nat) (i : Int) : Bool :=
+  (resLimitIds e r).any (fun lid => !limitOk e σ lid i none) || (taskLimitIds e t).any (fun lid => !limitOk e σ lid i (some r))
 
 /-- decidable form of `FwdEff` -/
 def fwdEffB (e : Env) (t : Nat) : Bool :=
@@ -200,7 +203,8 @@ def runSched (j : Json) : Json :=
     | some L =>
       !((List.range (L - b + 1).toNat).all (fun k =>
         let i := b + (k : Int)
-        !(e.onShift r i && !e.leaveMark r i) || !(σ.led.get r i).usage.isEmpty)))
+        !(e.onShift r i && !e.leaveMark r i) || !(σ.led.get r i).usage.isEmpty || exhaustedB e σ t r i)))
+  let idleUnlimited := (idleTasks.filter (fun t => (resLimitIds e ((e.taskD t).alloc.headD 0)).isEmpty && (taskLimitIds e t).isEmpty)).length
   -- C07.earliest_fit_in_placement_order, with the loop's own order: a working slot in [bound, last] carries the task or an earlier one
   let σ0 := preLoop e (prepare e (initState e))
   let order := pickOrder e ((todoOf e σ0).length + 1) (todoOf e σ0) σ0 []
@@ -215,7 +219,7 @@ def runSched (j : Json) : Json :=
       !(order.contains t && (List.range (L - b + 1).toNat).all (fun k =>
         let i := b + (k : Int)
         !(e.onShift r i && !e.leaveMark r i) || (usageOf (σ.led.get r i).usage t).isSome ||
-          pre.any (fun t' => (usageOf (σ.led.get r i).usage t').isSome))))
+          pre.any (fun t' => (usageOf (σ.led.get r i).usage t').isSome) || exhaustedB e σ t r i)))
   -- containers: scheduled => children scheduled and dates = min / max; all children scheduled => scheduled
   let conts := (List.range e.tasks.size).filter (fun c => !(e.taskD c).leaf && !(e.taskD c).children.isEmpty)
   let contFail := conts.filter (fun c =>
@@ -231,6 +235,7 @@ def runSched (j : Json) : Json :=
   let thm := Json.mkObj [("resources", Json.num (JsonNumber.fromNat e.res.size)), ("resources_aligned", Json.num (JsonNumber.fromNat nAligned)),
                          ("back_edges", Json.num (JsonNumber.fromNat backPairs.length)), ("back_fail", Json.num (JsonNumber.fromNat backFail.length)),
                          ("idle_tasks", Json.num (JsonNumber.fromNat idleTasks.length)), ("idle_fail", Json.num (JsonNumber.fromNat idleFail.length)),
+                         ("idle_tasks_unlimited", Json.num (JsonNumber.fromNat idleUnlimited)),
                          ("fit_fail", Json.num (JsonNumber.fromNat fitFail.length)),
                          ("limit_periods", Json.num (JsonNumber.fromNat limChecks.length)), ("limit_fail", Json.num (JsonNumber.fromNat limFail.length)),
                          ("containers", Json.num (JsonNumber.fromNat conts.length)), ("container_fail", Json.num (JsonNumber.fromNat contFail.length)),
